@@ -327,6 +327,27 @@ CLAIMS = {
              "on the program path; float formats are out of the encoder's reach.",
         note=PYVC_TRUST + "; " + BPFVC_TRUST + "; host little endian; descriptor resolution (ProcessDesc/StructDesc) "
              "is exercised on the real objects when the probe programs are built, not symbolically"),
+    "C23": dict(
+        engine="pyvc", category="other", design_ref="DESIGN.md section 9.6",
+        technique="contract-based deductive verification, rely/guarantee: the real source of lock.FMMULock "
+                  "(__init__/get_next_addr/remove) and of ParallelEtherCat.get_ethertype/run executed for one "
+                  "participant against atomic-action contracts of the POSIX / bpf calls; resource invariant of the "
+                  "address bitmap under lockf; global invariant of lock directory, pin and attached dispatcher as "
+                  "the guarantee of every action; the other participants are the rely (any number); z3",
+        text="FMMU windows: every access to the address bitmap happens under the file lock, the invariant (64 bytes, "
+             "every live participant's bit set) is re-established at every unlock, a new participant gets a number "
+             "no live participant has, get_next_addr never leaves the window of its number, remove clears only its "
+             "own bit - for any number of participants and any bitmap. Ethertypes: the lock file is created "
+             "exclusively, so a participant's ethertype differs from that of every other registered participant, "
+             "and it is the one its socket is bound to. Dispatcher: a successful rename makes a participant the only "
+             "installer (I1); every action of a participant that is not the last one to leave and that fetches the "
+             "program table while nobody installs keeps the global invariant, and its table is the attached "
+             "dispatcher's while it runs. Two regions violate the property on the real code (recorded findings, "
+             "interleavings replayed on the real run() over a simulated file system): the last leaver's "
+             "uninstall is not atomic; a joiner can fetch a stale table during an installation.",
+        note=PYVC_TRUST + "; POSIX/bpf atomic-action contracts assumed; the rely is the symmetric image of the "
+             "guarantee (all participants run the same code) - composed by hand, not mechanised; installation "
+             "failures and crashes not covered; two recorded findings"),
     "C24": dict(
         engine="pyvc", category="other", design_ref="DESIGN.md section 4 C24",
         technique="contract-based deductive verification: exceptional postconditions on the real source of "
